@@ -195,7 +195,7 @@ static void check_spline(const SplC &c, vf::Obs &o) {
 struct KnotVC {
   std::vector<i64> code;
   i64 p = 0, route = 0, gridmut = 0;  // route 0 ctor(knots)+generate<p>, 1 ctor(knots, grid)+generate<p>, 2 generateBSplines<p>(knots)
-                                      // gridmut 0 matching (separately built), 1 extra point at the back, 2 first point dropped, 3 a point moved, 4 extra point in front
+                                      // gridmut 0 matching (separately built), 1 extra point at the back, 2 first point dropped, 3 a point moved, 4 extra point in front, 5 last point dropped
   template <class A>
   void io(A &a) { a("code", code); a("p", p); a("route", route); a("gridmut", gridmut); }
 };
@@ -223,6 +223,7 @@ static void check_generator(const KnotVC &c, vf::Obs &o) {
       case 2: if (gp.size() >= 3) { gp.erase(gp.begin()); grid_ok = false; } break;
       case 3: if (gp.size() >= 2 && gp[gp.size() - 1] - gp[gp.size() - 2] > 0.25 && std::isfinite(gp.back())) { gp.back() -= 0.125; grid_ok = false; } break;
       case 4: if (std::isfinite(gp.front())) { gp.insert(gp.begin(), gp.front() - 1.0); grid_ok = false; } break;
+      case 5: if (gp.size() >= 3) { gp.pop_back(); grid_ok = false; } break;   // the knots reproduce the whole grid and then continue
       default: break;
     }
     if (!strictly_increasing(gp) || gp.size() < 2) { o.discard("harness could not build the supplied grid"); return; }
@@ -404,7 +405,7 @@ int main(int argc, char **argv) {
     c.count = chance(45) ? nint : pick(0, c.n + 1);
     return c; }), check_spline);
   vf::add_sub<KnotVC>("generator", 2500, rc::gen::exec([] {
-    KnotVC c; c.p = pick(0, 4); c.code = gen_codes((int)c.p + 4, true); c.route = pick(0, 2); c.gridmut = chance(50) ? 0 : pick(1, 4);
+    KnotVC c; c.p = pick(0, 4); c.code = gen_codes((int)c.p + 4, true); c.route = pick(0, 2); c.gridmut = chance(50) ? 0 : pick(1, 5);
     return c; }), check_generator);
   vf::add_sub<LinCC>("linear-combination", 300, rc::gen::exec([] { LinCC c; c.nc = pick(0, 4); c.ns = pick(0, 4); if (chance(40)) c.nc = c.ns; c.overload = pick(0, 2); c.order = pick(0, 2); c.members = chance(50) ? 0 : pick(1, 5); return c; }), check_lincomb);
   vf::add_sub<IntC>("interpolation", 1200, rc::gen::exec([] {
